@@ -110,8 +110,9 @@ class Contract:
 
 
 class ClassInfo:
-    def __init__(self, name, mod=None, dataclass=False, fields=None, init=None):
+    def __init__(self, name, mod=None, dataclass=False, fields=None, init=None, tuple_fields=None):
         self.name, self.mod, self.dataclass, self.fields, self.init = name, mod, dataclass, fields or [], init
+        self.tuple_fields = tuple_fields       # heap model of an immutable tuple stored in a container: field names in order
 
 
 class Registry:
